@@ -379,3 +379,69 @@ func smtString(s string) string {
 	b.WriteByte('"')
 	return b.String()
 }
+
+// ---- ground instances of assumed quantified clauses ---------------------------------------
+//
+// When a universally quantified clause is *assumed* (a precondition at entry, an invariant
+// at a loop header, a callee's postcondition), its instance at index 0 is a sound consequence.
+// Adding it explicitly spares the solver an instantiation for which no ground trigger term
+// exists (e.g. "errs[0] != nil" from "forall k :: errs[k] != nil").
+
+func substZero(x *SExpr, names map[string]bool) *SExpr {
+	if x == nil {
+		return nil
+	}
+	if x.Op == "id" && names[x.Val] {
+		return &SExpr{Op: "int", Val: "0"}
+	}
+	n := &SExpr{Op: x.Op, Val: x.Val, Binders: x.Binders, Pos: x.Pos}
+	inner := names
+	if x.Op == "forall" || x.Op == "exists" {
+		inner = map[string]bool{}
+		for k, v := range names {
+			inner[k] = v
+		}
+		for _, b := range x.Binders {
+			delete(inner, b.Name)
+		}
+	}
+	for _, a := range x.Args {
+		n.Args = append(n.Args, substZero(a, inner))
+	}
+	return n
+}
+
+func intBinders(bs []Binder) (map[string]bool, bool) {
+	m := map[string]bool{}
+	for _, b := range bs {
+		if b.Type != "int" {
+			return nil, false
+		}
+		m[b.Name] = true
+	}
+	return m, true
+}
+
+// zeroInstances returns sound ground consequences of an assumed clause.
+func zeroInstances(x *SExpr) []*SExpr {
+	switch {
+	case x.Op == "forall":
+		if m, ok := intBinders(x.Binders); ok {
+			return []*SExpr{substZero(x.Args[0], m)}
+		}
+	case x.Op == "bin" && x.Val == "&&":
+		return append(zeroInstances(x.Args[0]), zeroInstances(x.Args[1])...)
+	case x.Op == "bin" && x.Val == "==>":
+		var out []*SExpr
+		for _, q := range zeroInstances(x.Args[1]) {
+			out = append(out, &SExpr{Op: "bin", Val: "==>", Args: []*SExpr{x.Args[0], q}})
+		}
+		if p := x.Args[0]; p.Op == "exists" {
+			if m, ok := intBinders(p.Binders); ok {
+				out = append(out, &SExpr{Op: "bin", Val: "==>", Args: []*SExpr{substZero(p.Args[0], m), x.Args[1]}})
+			}
+		}
+		return out
+	}
+	return nil
+}
